@@ -128,15 +128,37 @@ def rule_rt6(A: Analysis, rep):
     rep.check(len(st) == 1 and norm(st[0].value) == "version_to_record", "RT6", "version field", init.node, "", "_version_to_record is not the constructor argument", deep=False)
     # the generator skips directories that already exist (so a fresh run succeeds)
     cnv = A.fn("task_types.run.RunExperiment._create_new_version")
-    loops = [l for l in walk_local(cnv.node) if isinstance(l, ast.While)]
+    loops = [l for l in walk_local(cnv.node) if isinstance(l, ast.While) and A.calls_in(l, "VersionIndex.generate_new_output_version")]
     ok = False
+    det = "no retry loop around generate_new_output_version"
     if len(loops) == 1:
-        brk = [b for b in walk_local(loops[0]) if isinstance(b, ast.Break)]
-        if len(brk) == 1 and isinstance(brk[0]._parent, ast.If):
-            d = A.dnf(brk[0]._parent.test, True, cnv, inline=False)
-            ok = sorted(map(sorted, d)) == sorted(map(sorted, [frozenset({("none(output_path)", True)}), frozenset({("t(output_path.exists())", False)})]))
-    rep.check(ok, "RT6", "new versions skip existing directories", cnv.node, "version numbers whose directory exists are skipped",
-              "_create_new_version no longer skips versions whose output directory already exists (a same-second re-run would fail or reuse it)")
+        l = loops[0]
+        cont = None
+        if isinstance(l.test, ast.Constant) and l.test.value is True:
+            brk = [b for b in walk_local(l) if isinstance(b, ast.Break)]
+            if len(brk) == 1 and isinstance(brk[0]._parent, ast.If):
+                cont = A.dnf(brk[0]._parent.test, False, cnv, inline=False, xstop=[])
+        elif isinstance(l.test, ast.Name):
+            flag = l.test.id
+            ins = [d for d in A.defs(cnv, flag) if isinstance(d, ast.Assign) and id(d) in {id(x) for x in ast.walk(l)}]
+            outs = [d for d in A.defs(cnv, flag) if isinstance(d, ast.Assign) and id(d) not in {id(x) for x in ast.walk(l)}]
+            if len(ins) == 1 and len(outs) == 1 and norm(outs[0].value) == "True" and not any(isinstance(b, (ast.Break, ast.Continue)) for b in walk_local(l)):
+                cont = A.dnf(ins[0].value, True, cnv, inline=False, xstop=[flag])
+        if cont is not None:
+            # the loop repeats exactly while the new version's directory exists
+            atoms = {a for c in cont for a, _p in c}
+            paths = {a[5:-1] for a in atoms if a.startswith("none(")}
+            okp = len(paths) == 1
+            if okp:
+                pv = paths.pop()
+                okp = cont == [frozenset({("none(%s)" % pv, False), ("t(%s.exists())" % pv, True)})] and pv.replace(" ", "") in ("self.get_output_path(%s)" % cnv.params[1], "output_path")
+                if pv == "output_path":
+                    sv = A.single_def_value(cnv, "output_path")
+                    okp = okp and sv is not None and norm(sv) == "self.get_output_path(%s)" % cnv.params[1]
+            ok = okp
+            det = "the retry loop continues under [%s]" % " | ".join(fmt_conj(c) for c in cont)
+    rep.check(ok, "RT6", "new versions skip existing directories", cnv.node, "a new version is generated again exactly while its output directory already exists",
+              "_create_new_version no longer skips versions whose output directory already exists (a same-second re-run would fail or reuse it): " + det)
 
 
 # --------------------------------------------------------------------------- GC
